@@ -5,11 +5,14 @@ import asyncio
 import itertools
 import json
 
+import translate.filter_mutators
 from harness import core
 from harness.core import Atom
+from harness.props import c22_frame
 
 ID = "C22"
-LEAN_MODULES = ["JinjaV.Props.C22"]
+LEAN_MODULES = ["JinjaV.Props.C22", "JinjaV.Props.C22Frame"]
+GEN = [translate.filter_mutators.gen]
 LEVEL = "proof"
 TRUSTED = [
     "Model/FiltColl.lean is a hand transcription of do_slice, do_batch, do_unique, do_sort, do_groupby, do_min/max, "
@@ -18,6 +21,10 @@ TRUSTED = [
     "total transitive <= on keys",
     "reverse/first/last/length/list/join/map/select/reject/selectattr/rejectattr are compared with their Python "
     "definitions directly (no Lean model): correspondence only",
+    "frame: the Lean models are pure functions, so 'the arguments are unchanged' is stated as the harness oracle (deep snapshot "
+    "of every argument before = after; result is not the argument) in harness/props/c22_frame.py, and statically as "
+    "Props/C22Frame.lean over Gen/FilterMutators.lean; the may-alias analysis of translate/filter_mutators.py (which builtins "
+    "build a new container, which methods mutate) is trusted",
 ]
 ASSUMPTIONS = ["keys are comparable strings / ints (heterogeneous comparisons raise TypeError in Python)"]
 
@@ -34,9 +41,14 @@ def canon(o):
     return str(o) if isinstance(o, Atom) else o
 
 
+_TEMPLATES = {}
+
+
 def render(env, src, **data):
     try:
-        t = env.from_string(src)
+        t = _TEMPLATES.get((id(env), src))      # the same source compiled once per environment (speed only)
+        if t is None:
+            t = _TEMPLATES[(id(env), src)] = env.from_string(src)
         if env.is_async:
             return asyncio.run(t.render_async(**data))
         return t.render(**data)
@@ -132,17 +144,27 @@ def run(ctx, res):
                                 f"{envname} {src!r} on {core.sx(req[2])} ({form}) gives {out!r}; contract {want!r}",
                                 {"src": src, "request": core.sx(req), "env": envname, "form": form})
     direct = run_direct(ctx, res, jinja2, env, aenv)
+    frame = c22_frame.run_frame(ctx, res, jinja2, env, aenv)
     res.coverage.update({
-        "evaluations": evaluations + direct["evaluations"],
-        "distinct_nontrivial": len(distinct) + direct["distinct"],
+        "evaluations": evaluations + direct["evaluations"] + frame["unit_calls"] + frame["template_renders"],
+        "distinct_nontrivial": len(distinct) + direct["distinct"] + frame["distinct"],
         "rule": (f"slice/batch: every length 0-{maxlen} x sizes 1-8 x fill none/value (exhaustive); unique/sort/groupby/min/max: "
                  "every key list of length < 4/5 over 5 mixed-case keys plus random longer lists, case sensitive and not, "
                  "reverse; sum: random int lists; each rendered through the real filter in sync and async environments over "
                  "lists, generators and async generators, compared with the Lean model whose contracts are the theorems; "
-                 "remaining filters compared with their Python definitions"),
+                 "remaining filters compared with their Python definitions. FRAME: for each of the 22 collection filter names "
+                 "random element lists (ints, mixed-case strings, nested lists, [key, n] pairs, records with a nested list, dict "
+                 "items; length 0-8) x generated arguments (fill / start / default / test arguments also as mutable lists) x "
+                 "container form (list, tuple, list subclass, dict values view, dict, generator, async generator) x sync/async "
+                 "environment: every argument is deep-snapshotted before the direct call (Environment.call_filter, async variants "
+                 "driven by asyncio.run) and compared after the result was consumed; new-object filters must not return the "
+                 "argument and reversing/appending to the result must leave the snapshot unchanged; results equal across "
+                 "variants; the same through templates that dump the variables after the filter (expr / for-loop / set+append "
+                 "shapes); non-trivial = at least 2 elements; plus auto_to_list on every form"),
         "samples": [{"request": core.sx(reqs[5]), "src": jobs[5][0]}, {"request": core.sx(reqs[-1]), "src": jobs[-1][0]}],
         "filter_distribution": kinds,
         "direct": direct,
+        "frame": frame,
     })
 
 
@@ -200,4 +222,7 @@ def run_direct(ctx, res, jinja2, env, aenv):
 
 
 def replay(ctx, case):
-    return case["case"]
+    c = case["case"]
+    if isinstance(c, dict) and c.get("mode") in ("unit", "template", "auto_to_list"):
+        return {"case": c, "now": c22_frame.replay_frame(core.import_jinja(), c)}
+    return c
